@@ -281,6 +281,25 @@ backup_body(void *arg) {
       snprintf(m, sizeof(m), "writes to the source changed the backup: %s", e);
       rfail(&j->r, "backup-not-independent", m);
     }
+    /* and the other way round: a write made through the backup, a flush and a reopen of it leave the source alone */
+    if (j->r.ok && b.db) {
+      b.model = at_backup;
+      b.nops = h.nops + 20;
+      kop_parse(&w, "P2.1", NULL);
+      kh_apply(&b, &w);
+      kop_parse(&w, "F", NULL);
+      kh_apply(&b, &w);
+      kh_close(&b);
+      if (kh_open(&b) != LDB_OK || !same_model(&b, &b.model, e, sizeof(e))) {
+        snprintf(m, sizeof(m), "the backup is not a usable database of its own (write, flush, reopen): %s", b.db ? e : "does not reopen");
+        rfail(&j->r, "backup-not-independent", m);
+      }
+      if (j->r.ok && !same_model(&h, &h.model, e, sizeof(e))) {
+        snprintf(m, sizeof(m), "writes made through the backup changed the source: %s", e);
+        rfail(&j->r, "source-damaged-by-backup", m);
+      }
+      at_backup = b.model;
+    }
     kh_close(&b);
   }
   /* a backup onto a destination that already holds a database (the earlier backup, the source's own
@@ -338,10 +357,46 @@ backup_body(void *arg) {
         snprintf(m, sizeof(m), "copy contents differ from the source: %s", e);
         rfail(&j->r, "copy-contents-wrong", m);
       }
-      kh_clear(&c);
+      /* independence in BOTH directions (the copy shares no mutable file with the source): a write made
+         through the copy never shows up in the source, a write made to the source afterwards never shows up
+         in the copy; both survive their own reopen */
+      c.model = at_backup;
+      c.nops = h.nops + 20;   /* value ids of the copy's writes differ from every write of the source */
+      if (j->r.ok && c.db) {
+        kop_parse(&w, "P2.1", NULL);
+        kh_apply(&c, &w);
+        kop_parse(&w, "D0", NULL);
+        kh_apply(&c, &w);
+      }
+      kh_close(&c);
       if (j->r.ok && kh_open(&h) == LDB_OK) {
-        if (!same_model(&h, &at_backup, e, sizeof(e))) rfail(&j->r, "source-damaged-by-copy", e);
+        if (!same_model(&h, &at_backup, e, sizeof(e))) {
+          snprintf(m, sizeof(m), "the source changed after ldb_copy (and writes made through the copy): %s", e);
+          rfail(&j->r, "source-damaged-by-copy", m);
+        }
+        h.nops += 2;
+        kop_parse(&w, "P0.1", NULL);
+        kh_apply(&h, &w);
+        kop_parse(&w, "D1", NULL);
+        kh_apply(&h, &w);
+        kh_close(&h);
+        if (j->r.ok) {
+          if (kh_open(&c) != LDB_OK) rfail(&j->r, "copy-unopenable", "the copy does not open a second time");
+          else if (!same_model(&c, &c.model, e, sizeof(e))) {
+            snprintf(m, sizeof(m), "writes made to the source after ldb_copy changed the copy (or the copy lost its own writes): %s", e);
+            rfail(&j->r, "copy-not-independent", m);
+          }
+          kh_close(&c);
+        }
+        if (j->r.ok) {
+          if (kh_open(&h) != LDB_OK) rfail(&j->r, "source-damaged-by-copy", "source does not reopen");
+          else if (!same_model(&h, &h.model, e, sizeof(e))) {
+            snprintf(m, sizeof(m), "the source is wrong after reopening the copy: %s", e);
+            rfail(&j->r, "source-damaged-by-copy", m);
+          }
+        }
       } else if (j->r.ok) rfail(&j->r, "source-damaged-by-copy", "source does not open after ldb_copy");
+      kh_clear(&c);
     }
   }
   kh_clear(&b);
@@ -590,7 +645,7 @@ int
 main(int argc, char **argv) {
   const char *cfgs, *parts;
   char *copy, *save = NULL, *item;
-  int locklen, blen;
+  int locklen, blen, first_item = 1;
   drv_init(argc, argv);
   kv_set_universe(1);
   cfgs = drv_opt("cfgs", "B1");
@@ -638,7 +693,8 @@ main(int argc, char **argv) {
   copy = strdup(cfgs);
   for (item = strtok_r(copy, ";", &save); item && !stop_now; item = strtok_r(NULL, ";", &save)) {
     if (!kcfg_parse(&cfg, item)) vh_die("bad cfg");
-    if (strstr(parts, "lock")) lock_sequences(locklen);
+    if (strstr(parts, "lock") && (first_item || drv.thorough)) lock_sequences(locklen);   /* quick: the first configuration only */
+    first_item = 0;
     if (strstr(parts, "backup")) backup_states(blen);
     if (strstr(parts, "destroy") && drv.shard == 0) {
       static const char *dn[] = {"destroy0", "destroy1", "destroy2", "destroy3", "destroy4"};
